@@ -111,6 +111,46 @@ fn run_case<G: AffineRepr>(env: &Env<G>, c: &Case) -> CaseOut {
                     let cls = if matches!(mu, Mut::Rounds(_)) { "rounds" } else { class };
                     judge_bytes::<G>(env, &mut o, &prog, &po.vs, &orig, &b, &|| name.clone(), cls);
                     o.sig(format!("{}|k={}|p{}|{}", env.curve, k, if c.n2 > 0 { 2 } else { 1 }, name));
+                    // the altered proof must not be accepted by batch verification either, alone or
+                    // next to the original
+                    if m != hm {
+                        if let Some(alt) = m.to_real() {
+                            for (bn, items) in [("batch[altered]", vec![(&prog, &po.vs[..], &alt)]), ("batch[original,altered]", vec![(&prog, &po.vs[..], proof), (&prog, &po.vs[..], &alt)])] {
+                                o.evals += 1;
+                                let (r, _, _) = batch::<G>(env, &items, &env.bp, c.seed ^ 0x4b);
+                                if r.is_ok() {
+                                    o.count(&format!("{}:ACCEPTED-DIFFERENT", bn), 1);
+                                    o.violate(format!("batch-accepted-altered:{}", cls), format!("{} accepts a proof altered by {}", bn, name), json!({"alteration": name, "program": prog}));
+                                } else {
+                                    o.count(&format!("{}:rejected", bn), 1);
+                                }
+                            }
+                        }
+                    }
+                }
+            }
+            if matches!(c.work, Work::Fields) {
+                // opposite offsets of one scalar in two copies (their residuals are exactly opposite
+                // for the scalars the transcript does not absorb): the batch must still reject
+                for i in 0..5usize {
+                    let plus = apply(&hm, &Mut::Scalar(i, 0), &env.pc.B).and_then(|m| m.to_real());
+                    let minus = apply(&hm, &Mut::Scalar(i, 4), &env.pc.B).and_then(|m| m.to_real());
+                    if let (Some(p), Some(q)) = (plus, minus) {
+                        for (bn, items) in [
+                            ("batch[+1,-1]", vec![(&prog, &po.vs[..], &p), (&prog, &po.vs[..], &q)]),
+                            ("batch[original,+1,-1]", vec![(&prog, &po.vs[..], proof), (&prog, &po.vs[..], &p), (&prog, &po.vs[..], &q)]),
+                            ("batch[original,original,-1,+1]", vec![(&prog, &po.vs[..], proof), (&prog, &po.vs[..], proof), (&prog, &po.vs[..], &q), (&prog, &po.vs[..], &p)]),
+                        ] {
+                            o.evals += 1;
+                            let (r, _, _) = batch::<G>(env, &items, &env.bp, c.seed ^ 0x4c);
+                            let nm = crate::mirror::SCALAR_NAMES[i];
+                            if r.is_ok() {
+                                o.violate(format!("batch-accepted-altered-pair:{}", nm), format!("{} accepts two copies of the proof with {} offset by +1 and -1", bn, nm), json!({"scalar": nm, "program": prog}));
+                            } else {
+                                o.count(&format!("{}:rejected", bn), 1);
+                            }
+                        }
+                    }
                 }
             }
         }
